@@ -160,6 +160,57 @@ SHAS_FSLOT(0) SHAS_FSLOT(1) SHAS_FSLOT(2) SHAS_FSLOT(3)
 ;
 #endif
 
+/* ---- L4 HMAC CONTRACTS with a ghost log of HMAC computations (used by hash_rfc6979.c) -----------------
+ * An HMAC computation = initialize(key); write*; finalize.  Epoch = number of hmac finalize calls so far.
+ * The message position of a write is the object's own inner counter minus the 64-byte pad block.
+ *   selectors: g_hwe epoch, g_hwpos message position, g_hkk key byte index, g_hdk digest byte index (< 32);
+ *   initialize log (epoch g_hwe): number of initializations, key length, key byte at g_hkk;
+ *   write log (epoch g_hwe): hit count and byte at message position g_hwpos;
+ *   finalize log: message length of epoch g_hwe; digest byte at g_hdk of epochs g_hwe (cur), g_hwe-1 (prev),
+ *     g_hwe-2 (prev2) and of the most recent computation (last) - enough to state "this key / this message
+ *     is the output of that earlier HMAC".
+ * Digest values are unconstrained.  Non-ghost clauses (inner/outer counters, frames) are what
+ * C05.hmac_initialize/_write/_finalize prove about the real functions. */
+#ifdef HASH_SPEC_HMAC_CONTRACTS
+int g_hfin_n; int g_hwe; uint64_t g_hwpos; unsigned g_hkk, g_hdk;
+int g_hk_n; size_t g_hk_len; unsigned char g_hk_byte;
+int g_hw_hit; unsigned char g_hw_byte;
+uint64_t g_hf_len; unsigned char g_hf_cur, g_hf_prev, g_hf_prev2, g_hf_last;
+size_t verif_oi;   /* ghost output index used by the loop invariant of rfc6979_generate (hooks/C05_hash_rfc6979_loop.diff) */
+#define HMACS_RESET() do { g_hfin_n = 0; g_hk_n = 0; g_hk_len = 0; g_hk_byte = 0; g_hw_hit = 0; g_hw_byte = 0; \
+    g_hf_len = 0; g_hf_cur = g_hf_prev = g_hf_prev2 = g_hf_last = 0; } while (0)
+static void secp256k1_hmac_sha256_initialize(const secp256k1_hash_ctx *hash_ctx, secp256k1_hmac_sha256 *hash, const unsigned char *key, size_t keylen)
+__CPROVER_requires(__CPROVER_rw_ok(hash, sizeof(*hash)) && (keylen == 0 || __CPROVER_r_ok(key, keylen)) && hash_ctx != NULL)
+__CPROVER_requires(g_hk_n >= 0 && g_hk_n < 1000)
+__CPROVER_assigns(*hash, g_hk_n, g_hk_len, g_hk_byte)
+__CPROVER_ensures(hash->inner.bytes == 64 && hash->outer.bytes == 64)
+__CPROVER_ensures(g_hfin_n == g_hwe
+    ? (g_hk_n == __CPROVER_old(g_hk_n) + 1 && g_hk_len == keylen && g_hk_byte == (g_hkk < keylen ? key[g_hkk] : __CPROVER_old(g_hk_byte)))
+    : (g_hk_n == __CPROVER_old(g_hk_n) && g_hk_len == __CPROVER_old(g_hk_len) && g_hk_byte == __CPROVER_old(g_hk_byte)))
+;
+static void secp256k1_hmac_sha256_write(const secp256k1_hash_ctx *hash_ctx, secp256k1_hmac_sha256 *hash, const unsigned char *data, size_t size)
+__CPROVER_requires(__CPROVER_rw_ok(hash, sizeof(*hash)) && (size == 0 || __CPROVER_r_ok(data, size)) && hash_ctx != NULL)
+__CPROVER_requires(hash->inner.bytes >= 64 && hash->inner.bytes <= UINT64_MAX - size && g_hw_hit >= 0 && g_hw_hit < 1000)
+__CPROVER_assigns(hash->inner, g_hw_hit, g_hw_byte)
+__CPROVER_ensures(hash->inner.bytes == __CPROVER_old(hash->inner.bytes) + size)
+__CPROVER_ensures((g_hfin_n == g_hwe && __CPROVER_old(hash->inner.bytes) - 64 <= g_hwpos && g_hwpos - (__CPROVER_old(hash->inner.bytes) - 64) < size)
+    ? (g_hw_hit == __CPROVER_old(g_hw_hit) + 1 && g_hw_byte == data[g_hwpos - (__CPROVER_old(hash->inner.bytes) - 64)])
+    : (g_hw_hit == __CPROVER_old(g_hw_hit) && g_hw_byte == __CPROVER_old(g_hw_byte)))
+;
+static void secp256k1_hmac_sha256_finalize(const secp256k1_hash_ctx *hash_ctx, secp256k1_hmac_sha256 *hash, unsigned char *out32)
+__CPROVER_requires(__CPROVER_rw_ok(hash, sizeof(*hash)) && __CPROVER_w_ok(out32, 32) && hash_ctx != NULL)
+__CPROVER_requires(hash->inner.bytes >= 64 && hash->inner.bytes < ((uint64_t)1 << 61) && hash->outer.bytes == 64)
+__CPROVER_requires(g_hdk < 32 && g_hfin_n >= 0 && g_hfin_n < 1000)
+__CPROVER_assigns(*hash, __CPROVER_object_upto(out32, 32), g_hfin_n, g_hf_len, g_hf_cur, g_hf_prev, g_hf_prev2, g_hf_last)
+__CPROVER_ensures(g_hfin_n == __CPROVER_old(g_hfin_n) + 1 && g_hf_last == out32[g_hdk])
+__CPROVER_ensures(__CPROVER_old(g_hfin_n) == g_hwe
+    ? (g_hf_len == __CPROVER_old(hash->inner.bytes) - 64 && g_hf_cur == out32[g_hdk])
+    : (g_hf_len == __CPROVER_old(g_hf_len) && g_hf_cur == __CPROVER_old(g_hf_cur)))
+__CPROVER_ensures(g_hf_prev == (__CPROVER_old(g_hfin_n) == g_hwe - 1 ? out32[g_hdk] : __CPROVER_old(g_hf_prev)))
+__CPROVER_ensures(g_hf_prev2 == (__CPROVER_old(g_hfin_n) == g_hwe - 2 ? out32[g_hdk] : __CPROVER_old(g_hf_prev2)))
+;
+#endif
+
 /* memcpy model for the hash units that keep memcpy-ing code real (hash_write.c, hash_finalize.c).
  * Measured: with CBMC's built-in model (array_replace of a variable-length array into a struct member) or
  * with a plain byte loop, the symbolic-offset copies into hash->buf from a symbolic-size source cost
